@@ -205,9 +205,9 @@ Definition rem_coins (p : pool) : list (denom * Z) := map (fun r => (r_denom r, 
 Lemma refund_cases s pid p s' ok :
   refund s pid p = (s', ok) ->
   (exists p1 b1, update_pool (height s) (bank s) p 0 true = (p1, b1, false) /\ ok = false
-                 /\ s' = mkSt (height s) (set pid p1 (pools s)) (dequeue (queue s) (p_end p, pid)) (seq s) b1)
+                 /\ s' = mkSt (height s) (set pid p1 (pools s)) (dequeue (queue s) (p_end p, pid)) (seq s) b1 (cfee s) (trate s))
   \/ (exists p1 b1 b', update_pool (height s) (bank s) p 0 true = (p1, b1, true)
-        /\ s' = mkSt (height s) (set pid (zero_rules p1) (pools s)) (dequeue (queue s) (p_end p, pid)) (seq s) b'
+        /\ s' = mkSt (height s) (set pid (zero_rules p1) (pools s)) (dequeue (queue s) (p_end p, pid)) (seq s) b' (cfee s) (trate s)
         /\ ((b' = b1 /\ ok = false /\ (positive_coins (rem_coins p1) = []
                                        \/ send_many b1 FARM (p_creator p) (positive_coins (rem_coins p1)) = None))
             \/ (send_many b1 FARM (p_creator p) (positive_coins (rem_coins p1)) = Some b' /\ ok = true
@@ -272,7 +272,7 @@ Lemma adjust_Done s who pid add rpb s' rw :
                          (map (adj_topup add) (p_rules p1))) = Some iv
     /\ rw = []
     /\ s' = mkSt (height s) (set pid (with_end (with_rules p1 (adj_rules add rpb p1)) e) (pools s))
-                 (if e =? p_end p1 then queue s else enqueue (dequeue (queue s) (p_end p1, pid)) (e, pid)) (seq s) b2.
+                 (if e =? p_end p1 then queue s else enqueue (dequeue (queue s) (p_end p1, pid)) (e, pid)) (seq s) b2 (cfee s) (trate s).
 Proof.
   unfold adjust.
   destruct (match add with [] => match rpb with [] => true | _ => false end | _ => false end); [discriminate|].
@@ -315,12 +315,12 @@ Lemma create_Done s who lpt start editable rules s' rw :
   exists b1 b2 iv,
     sorted_strict (map (fun x => fst (fst x)) rules) = true
     /\ Forall (fun '(_, t, pb) => 0 < pb <= t) rules /\ rules <> []
-    /\ height s <= start /\ deduct_fee (bank s) who = Some b1
+    /\ height s <= start /\ deduct_fee (cfee s) (trate s) (bank s) who = Some b1
     /\ send_many b1 who FARM (map (fun '(d, t, _) => (d, t)) rules) = Some b2
     /\ min_interval (map (fun '(_, t, pb) => (t, pb)) rules) = Some iv
     /\ rw = []
     /\ s' = mkSt (height s) (set (seq s + 1) (mkPool who start (start + iv) 0 lpt 0 editable (new_rules rules) []) (pools s))
-                 (enqueue (queue s) (start + iv, seq s + 1)) (seq s + 1) b2.
+                 (enqueue (queue s) (start + iv, seq s + 1)) (seq s + 1) b2 (cfee s) (trate s).
 Proof.
   unfold create_pool.
   destruct (negb (sorted_strict (map (fun x => fst (fst x)) rules))
@@ -331,7 +331,7 @@ Proof.
   destruct (Z.ltb_spec start (height s)); [discriminate|].
   destruct (max_categories <? Z.of_nat (length rules)); [discriminate|].
   destruct (negb (valid_lpt lpt)); [discriminate|].
-  destruct (deduct_fee (bank s) who) as [b1|] eqn:Ed; [|discriminate].
+  destruct (deduct_fee (cfee s) (trate s) (bank s) who) as [b1|] eqn:Ed; [|discriminate].
   destruct (send_many b1 who FARM _) as [b2|] eqn:Es; [|discriminate].
   destruct (min_interval _) as [iv|] eqn:Em; [|discriminate].
   intros HH; inversion HH; subst. exists b1, b2, iv.
